@@ -135,7 +135,15 @@ def check_add_cleanup(chk, ix):
     def fn(it, st, args, kw, node):
         return [(st, "val", None)]
     fn.__name__ = "user_cleanup"
-    for layer in (None, "feature"):
+    scripts = [
+        ("same callable, different arguments, current layer", [(("a",), None), (("b",), None)], (2, 0)),
+        ("same callable, different arguments, layer=feature", [(("a",), "feature"), (("b",), "feature")], (0, 2)),
+        ("plain callable twice, current layer", [((), None), ((), None)], (1, 0)),
+        ("plain callable twice, layer=feature", [((), "feature"), ((), "feature")], (0, 1)),
+        ("plain callable in the current layer, then for layer=feature", [((), None), ((), "feature")], (1, 1)),
+        ("plain callable for layer=feature, then in the current layer", [((), "feature"), ((), None)], (1, 1)),
+    ]
+    for title, calls, want in scripts:
         it = Interp(ix, name="Context.add_cleanup")
         st = State()
         st.frames = []
@@ -145,7 +153,8 @@ def check_add_cleanup(chk, ix):
                                           {"@layer": "testrun", "@cleanups": st.alloc(HObj("list", kind="list", items=[]))}])
         cur = st
         ok_eval = True
-        for argv in (("a",), ("b",)):
+        outs = []
+        for argv, layer in calls:
             kw = {"layer": layer} if layer else {}
             outs = it.call_function(cur, f, [fn] + list(argv), kw, None, self_val=ctx)
             if len(outs) != 1 or outs[0][1] != "val":
@@ -157,13 +166,12 @@ def check_add_cleanup(chk, ix):
         if not ok_eval:
             raise AnalysisError("Context.add_cleanup not evaluable: %r" % ([(k, v) for _, k, v in outs][:2],))
         n0, n1 = len(cur.obj(c0).items), len(cur.obj(c1).items)
-        want = (2, 0) if layer is None else (0, 2)
         if (n0, n1) == want:
-            chk.ok("X3", {"layer": layer or "current", "registered": {"scenario": n0, "feature": n1}}, nontrivial_key=repr(layer))
+            chk.ok("X3", {"calls": title, "registered": {"scenario": n0, "feature": n1}}, nontrivial_key=title)
         else:
-            _fail(chk, "X3", f, "layer=%s registered scenario=%d feature=%d" % (layer, n0, n1),
-                  "add_cleanup(f, 'a') then add_cleanup(f, 'b') with layer=%s registers %d cleanup(s) in the scenario frame and %d in the "
-                  "feature frame; expected %s (each call registers its own cleanup in the addressed layer)" % (layer, n0, n1, want), cur.path)
+            _fail(chk, "X3", f, "%s: scenario=%d feature=%d" % (title, n0, n1),
+                  "add_cleanup, %s: %d cleanup(s) end up in the scenario frame and %d in the feature frame; expected %s (a cleanup is "
+                  "registered in the addressed layer, once per callable there)" % (title, n0, n1, want), cur.path)
 
 
 def check_stack_end(chk, ix):
